@@ -383,7 +383,14 @@ func runC15(c *Ctx) {
 				if unwrap(rr) == unwrap(gf) && unwrap(aa[0]) == unwrap(gf) {
 					nAcc++
 					src := render(aa[1])
-					c.check(strings.HasSuffix(src, ".Fee()") || strings.HasSuffix(src, ".FeeByEOA()"), "C15.treasury", "gathered fee accumulates the receipts' own fee", cs.Pos(), src, "accumulates "+src)
+					okSrc := true
+					for _, fl := range flowsOf(aa[1], nil) {
+						fs := render(fl.Src)
+						if !(strings.HasSuffix(fs, ".Fee()") || strings.HasSuffix(fs, ".FeeByEOA()")) {
+							okSrc = false
+						}
+					}
+					c.check(okSrc, "C15.treasury", "gathered fee accumulates the receipts' own fee", cs.Pos(), src, "accumulates "+src)
 				}
 			}
 			c.check(nAcc >= 1, "C15.treasury", "gathered fee is accumulated", credit.Pos(), "in the receipt loop", "the treasury amount is not accumulated from the receipts")
